@@ -5,12 +5,12 @@
 cd "$(dirname "$0")/.."
 python3 tools/patchcheck.py -j ${J:-5} seeded/*/patch.diff > /tmp/regress.seeds.$$ 2>&1
 python3 tools/patchcheck.py -j ${J:-5} neutral/*/*/patch.diff > /tmp/regress.neutral.$$ 2>&1
-ms=$(grep "^== " /tmp/regress.seeds.$$ | grep -c ": none\|ERROR")
+ms=$(grep "^== " /tmp/regress.seeds.$$ | grep -vc "(rc=1)")
 ns=$(grep "^== " /tmp/regress.seeds.$$ | wc -l)
 fa=$(grep "^== " /tmp/regress.neutral.$$ | grep -vc ": none")
 nn=$(grep "^== " /tmp/regress.neutral.$$ | wc -l)
 echo "seeded changes: $ns, not reported: $ms"
-grep "^== " /tmp/regress.seeds.$$ | grep ": none\|ERROR"
+grep "^== " /tmp/regress.seeds.$$ | grep -v "(rc=1)"
 echo "neutral refactorings: $nn, alarms (exit 1 or 2): $fa"
 grep -A4 "^== " /tmp/regress.neutral.$$ | grep -v ": none" | grep -v "^--" | cut -c1-240
 rm -f /tmp/regress.seeds.$$ /tmp/regress.neutral.$$
